@@ -159,14 +159,38 @@ def _extra(tier, seed, deadline):
     return jobs
 
 
+def _fault_jobs(tier, seed, deadline):
+    '''one faulty dispatch tick per history (dawgie.db.next() raising while a released job asks for a run id): the units
+    of that dispatch must still be handed out by a later one, or the queue never empties although every worker answers'''
+    jobs = []
+    cfg = {'run_empty': True, 'db_faults': 1}
+    wcfg = {'run_all': True, 'timers': True, 'run_empty': True, 'db_faults': 1}
+    for k, spec in enumerate(X.curated_specs()):
+        big = spec.n >= 4
+        if tier == 'quick':
+            plan = ((['T1'], 1, 3 if big else 4, 10**9, 3, 8), (['T1', 'T2'], 2, 3, 10**9, 3, 9))
+        else:
+            plan = tuple((t, w, 6, 4000, 10, 14) for t in (['T1'], ['T1', 'T2']) for w in (1, 2))
+        for targets, workers, depth, cap, walks, walk_len in plan:
+            jobs.append(
+                {
+                    'universe': X.Universe(spec, targets, workers).to_json(), 'cfg': cfg, 'walk_cfg': wcfg,
+                    'depth': depth, 'cap': cap, 'walks': walks, 'walk_len': walk_len + k % 3, 'seed': seed,
+                    'deadline': deadline, 'drain': OUTCOMES, 'bias': {'tick-dbfault': 2.0, 'timer': 1.0},
+                }
+            )  # fmt: skip
+    return jobs
+
+
 def run(tier, seed):
     t0 = time.time()
-    deadline = t0 + (14 if tier == 'quick' else 230)
+    deadline = t0 + (18 if tier == 'quick' else 230)
     jobs = X.tier_jobs(
         tier, seed, deadline, CFG, WALK_CFG, drain=OUTCOMES, depth_delta=-1 if tier == 'quick' else 0,
         walks_quick=6, walks_thorough=10,
     )  # fmt: skip
     jobs += _extra(tier, seed, deadline)
+    jobs += _fault_jobs(tier, seed, deadline)
     return X.run_tier(PROPERTY, tier, seed, jobs, _job, Mon, X.RULE, CLAUSES, t0)
 
 
